@@ -19,6 +19,7 @@ def motion(profile, tier, g92=False):
         "Depth": (5 if tier == "quick" else 7),
         "UseRel": "TRUE", "UseInch": "FALSE" if exact else "TRUE",
         "UseG92": "TRUE" if g92 else "FALSE", "UseAt": "TRUE", "UseHome": "FALSE",
+        "UseArcs": "TRUE" if exact else "FALSE",
         "Profile": '"%s"' % profile, "MaxRegs": 2,
     }
     inv = ["InvC01", "InvC02", "InvC03", "InvC09", "InvC14", "EpisodeAgreement", "TrackedIsGhost"]
